@@ -27,7 +27,8 @@ MARK = "/VERIF-C20-MARK/"
 WRITE_FLAGS = ("O_WRONLY", "O_RDWR", "O_CREAT", "O_TRUNC", "O_APPEND", "O_TMPFILE")
 LONG300 = "L" * 300
 INV_LEX = {"nm": "name", "xf": "xfile", "xd": "xdir", LONG300: "long", "bs\\..\\..\\w": "bslash", "victim": "victim",
-           "pwned.txt": "pwn"}
+           "pwned.txt": "pwn", "out2": "sib2", "out.bak": "sibbak", "out-evil": "sibdir", "output.txt": "sibtxt"}
+SIB = ("sib2", "sibbak", "sibdir", "sibtxt")
 HEX64 = re.compile(r"^[0-9a-f]{64}$")
 
 
@@ -326,7 +327,8 @@ def run(ctx):
                                      label="PathSafeMC: containment + step/closed-form agreement, whole scenario space", timeout=1500)
             for cfg, lab in (("C20_mc_s15.cfg", "switch: ManifestDelete without Validate (variant before fix 3b8373e, S15)"),
                              ("C20_mc_links.cfg", "what-if: links materialised behind a lexical guard"),
-                             ("C20_mc_stripdots.cfg", "what-if: title cleaned by stripping leading ../")):
+                             ("C20_mc_stripdots.cfg", "what-if: title cleaned by stripping leading ../"),
+                             ("C20_mc_sibling.cfg", "what-if: Extract guards entries with a string prefix test")):
                 r = ctx.tlc("PathSafeMC", cfg, workers=2, label=lab, allow_violation=True, timeout=600)
                 if r["violated"] != "Containment":
                     raise vlib.ToolError("%s: the model no longer shows the expected containment violation" % cfg)
@@ -369,7 +371,8 @@ def run(ctx):
         raise vlib.ToolError("the variant before the fix says a layout operation other than ManifestDelete escapes")
 
     def short(s):
-        return len(s["segs"]) <= 2
+        # always run: names of <= 2 segments and every name that reaches a sibling of the designated directory
+        return len(s["segs"]) <= 2 or any(c in SIB for c in s["segs"])
     if ctx.thorough:
         n_art, n_tar, n_lnk, n_imp = 14000, 12000, 0, 4000
     else:
@@ -387,7 +390,8 @@ def run(ctx):
         must_have = [s for s in by["lnk"] if key(s) in subtle or (key(s) in dangerous and (len(s["ents"]) == 2 or s["ents"][0]["k"] == "hard"))]
         chains = [s for s in by["lnk"] if key(s) in dangerous and s not in must_have]
         chosen += must_have + vlib.sample(rng, chains, 250) + vlib.sample(rng, [s for s in by["lnk"] if key(s) not in dangerous], n_lnk)
-    chosen += vlib.sample(rng, by["imp"], n_imp)
+    imp_sib = [s for s in by["imp"] if any(c in SIB for c in s["segs"]) and s["lead"] == 0 and s["trail"] == 0]
+    chosen += imp_sib + vlib.sample(rng, [s for s in by["imp"] if s not in imp_sib], n_imp)
     rng.shuffle(chosen)
     for i, s in enumerate(chosen):
         s["id"] = i + 1
